@@ -21,6 +21,18 @@ class CalibrateView:
         self.cal = prog.func(f"{CAL}.calibrate")
         self.g = CFG(self.cal.node)
         self.sn = self.cal.self_name
+        # The rules read one batch of the calibration loop *in* calibrate().  Helpers introduced by a refactoring are inlined by the front end (sa/align.py);
+        # one that could not be (a generator of batches, returns inside loops, recursion) hides mutations, checkpoints and exits from every path query:
+        # nothing about the loop can then be decided - say so instead of reporting what merely moved out of sight.
+        new = set((getattr(prog, "alignment", None) or {}).get("new_helpers", []))
+        hidden = []
+        for c in calls_in(self.cal.node, scope_only=False):
+            for t in prog.resolve_call(self.cal, c):
+                if isinstance(t, FuncInfo) and t.qualname in new and t.module is self.cal.module:
+                    hidden.append(t.qualname.split(":")[1])
+        # checked by Context.rule for every rule group that is handed this view: that group is then undecided (the other groups of the check still run)
+        self.unreadable = (f"{self.cal.loc(self.cal.node)}: Calibrator.calibrate delegates to the new helper(s) {sorted(set(hidden))[:4]}, which could not be read in place; "
+                           "the batch loop cannot be analysed") if hidden else None
 
     @cached_property
     def gx(self) -> CFG:
